@@ -47,7 +47,7 @@ class _AnyLoop(dict):
 
 
 class Render(Contract):
-    props = ('C20', 'C08')
+    props = ('C20', 'C08', 'C09')
     file = 'ombott/error_render.py'
     qualname = 'render'
     assumptions = ('str.format substitutes field values without re-scanning them; repr() of a str free of quotes adds only the '
@@ -82,10 +82,19 @@ class Render(Contract):
         def hopen(X, args, kwargs):
             return TemplateFile(VSeq(X.fresh(z3.SeqSort(PyObj), 'file_lines'), c.line))
         self.stubs = {'Sanitize.escape': escape, 'HtmlPath.open': hopen}
-        errobj = VObj('ErrResp', {'traceback': VOpaque(X.fresh(PyObj, 'tb'), 'tb'), 'exception': VOpaque(X.fresh(PyObj, 'exc'), 'exc')})
+        errobj = VObj('ErrResp', {'traceback': VOpaque(X.fresh(PyObj, 'tb'), 'tb'), 'exception': VOpaque(X.fresh(PyObj, 'exc'), 'exc'),
+                                  'body': X.fresh_str('err_body'), 'status': X.fresh_str('err_status')})
+        self.errobj = errobj
         self.errobj = errobj
         return {'err_resp': errobj, 'url': VStr(self.url), 'debug': VBool(self.debug),
                 'sanitize_html': VObj('Sanitize', {}), 'html': VObj('HtmlPath', {}), '_html_lns': TemplateCache(self.lines)}
+
+    def setattr_hook(self, X, obj, attr, val):
+        if obj is getattr(self, 'errobj', None):
+            # the error object may be one shared by all requests (errors_map entries): rendering reads it, never writes it
+            X.prove('frame.the_error_object_is_read_not_written', z3.BoolVal(False))
+            return True
+        return None
 
     def builtin_hook(self, X, name, args, kwargs):
         if name == 'repr':
